@@ -18,11 +18,16 @@ directly calling GIT (for development).
         pass
 
     try:
+        import os
         import subprocess
+        # ask about the repository of the package, not of the directory
+        # the user happens to be in
         version = subprocess.check_output(
-            ["git", "describe", "--tags", "--always"]).strip().decode('utf-8')
+            ["git", "describe", "--tags", "--always"],
+            cwd=os.path.dirname(os.path.abspath(__file__)),
+            stderr=subprocess.DEVNULL).strip().decode('utf-8')
         return version
-    except subprocess.CalledProcessError:
+    except (subprocess.CalledProcessError, OSError):
         pass
 
 
